@@ -37,6 +37,7 @@ structure Cfg where
   auxv : Option (Nat × Nat × Nat × Nat) := none
   gregs : List Nat := []
   fpSeed : Nat := 0
+  reused : Nat := 0
   deriving Repr
 
 def parseCfg (s : String) : Option Cfg := do
@@ -55,6 +56,7 @@ def parseCfg (s : String) : Option Cfg := do
     | ["umap", st, sz, off, pe, nm, id] =>
       c := { c with umaps := c.umaps ++ [(← st.toNat?, ← sz.toNat?, ← off.toNat?, ← pe.toNat?, ← unhex nm, ← unhex id)] }
     | ["auxv", a, b, cc, d] => c := { c with auxv := some (← a.toNat?, ← b.toNat?, ← cc.toNat?, ← d.toNat?) }
+    | ["reused", n] => c := { c with reused := ← n.toNat? }
     | _ => none
   some c
 
@@ -62,6 +64,8 @@ def parseCfg (s : String) : Option Cfg := do
 structure TThr where
   tid : Nat
   spin : Bool
+  /-- a busy thread of another kind: almost always waiting for a vfork child (slow to stop); no register expectations -/
+  slow : Bool := false
   name : Option Bytes     -- comm bytes as configured (none = default name)
   rsp : Nat
   rip : Nat
@@ -83,7 +87,7 @@ def parseThreads (s : String) : Option (List TThr) :=
     match t.splitOn ":" with
     | [tid, spin, nm, rsp, rip, rbx, rbp, r8, r9, r10, r12, r13, r14, r15, _, _, idx, cnt] => do
       let name ← if nm == "-" then some none else (unhex nm).map some
-      some ⟨← tid.toNat?, spin == "1", name, ← rsp.toNat?, ← rip.toNat?,
+      some ⟨← tid.toNat?, spin == "1" || spin == "2", spin == "2", name, ← rsp.toNat?, ← rip.toNat?,
             ← rbx.toNat?, ← rbp.toNat?, ← r8.toNat?, ← r9.toNat?, ← r10.toNat?, ← r12.toNat?, ← r13.toNat?,
             ← r14.toNat?, ← r15.toNat?, ← idx.toNat?, ← cnt.toNat?⟩
     | _ => none)
